@@ -26,6 +26,7 @@ EXPLANATION = (
     "no input (sequence repetition `x * n`, bytes(n)); a sink must be bounded by min(n, CONST), a dominating constant upper "
     "bound or a finite small interval. (DECOMP) every LZMA/zlib/bz2 `decompress` call in repository code passes a "
     "max_length. (XML) every XML parse call resolves to defusedxml; xml.etree is imported for types and tree walking only."
+    ' (COST) no re-slicing of a bytes-like front inside a loop (quadratic copying; a memoryview is exempt); the member table ZipContext consults with `in` is a set / frozenset / dict.'
 )
 NOT_DECIDED = ["peak memory / run time multiples (runtime quantities)", "allocation loops inside third-party parsers (olefile.get_metadata, pypdf object loops, openpyxl dimensions)",
                "cost of deep recursion on deeply nested XML/HTML/RTF", "range(n) loops whose body consumes input on every iteration (listed as residual)"]
